@@ -155,6 +155,11 @@ Definition dev_major (rdev : N) : N :=
 Definition dev_minor (rdev : N) : N :=
   N.lor (N.land (N.shiftr rdev 12) 4294967040) (N.land rdev 255).
 
+(* the encoding side (glibc makedev), for the round-trip theorem *)
+Definition makedev (ma mi : N) : N :=
+  N.lor (N.lor (N.shiftl (N.land ma 4294963200) 32) (N.shiftl (N.land ma 4095) 8))
+        (N.lor (N.shiftl (N.land mi 4294967040) 12) (N.land mi 255)).
+
 (* ------------------------------------------------------------------ parseModString *)
 Definition c_plus : ascii := nb 43.
 Definition c_minus : ascii := nb 45.
@@ -266,93 +271,120 @@ Definition default_perms (t : ltype) : N :=
   | _ => N.ldiff 438 D_Umask
   end.
 
+(* ---- addSingleFile, piece by piece ---- *)
+Definition need_check (p : opts) : bool :=
+  match p_ltype p with
+  | LDir => false
+  | LSym => is_nil (p_target p)
+  | LDev => p_hassrc p || negb (has (p_dev p))
+  | _ => negb (p_hassrc p)
+  end.
+
+(* the entry type: given or taken from the object; None = the line is rejected *)
+Definition type_decision (p : opts) (exists_ : bool) (actual : ltype) (pending : bool) : option ltype :=
+  match p_ltype p with
+  | LNone => if negb exists_ then None else if pending then None else Some actual
+  | t => if need_check p
+         then (if pending then None
+               else if exists_ && negb (ltype_eqb t actual) then None else Some t)
+         else Some t
+  end.
+
+Definition opt_masks (p : opts) : option (N * N) :=
+  match p_mod p with Some m => parse_mod m | None => None end.
+
+Definition perms_of (p : opts) (exists_ : bool) (mode : N) (t : ltype) : N :=
+  let perms0 := if exists_ then mode else default_perms t in
+  match p_mod p, opt_masks p with
+  | Some _, Some (am, om) => if 0 <? am then N.lor (N.land perms0 am) om else om
+  | _, _ => perms0
+  end.
+
+Definition gid_of (p : opts) (exists_ : bool) (st : stat) : N :=
+  match p_gid p with Some g => g | None => if exists_ then st_gid st else D_StageFileGID end.
+Definition uid_of (p : opts) (exists_ : bool) (st : stat) : N :=
+  match p_uid p with Some u => u | None => if exists_ then st_uid st else D_StageFileUID end.
+
+Definition zero_stat : stat := MkStat 0 0 0 0%Z 0 0 0 0.
+
+(* the final switch on the entry type *)
+Definition finish (p : opts) (t : ltype) (ob : option object) (mtime : Z) (xa : option (list xattr))
+    (gid uid perms : N) : res entry :=
+  let st := match ob with Some o => o_st o | None => zero_stat end in
+  let base := MkEntry t (p_name p) (p_target p) 0 mtime xa gid uid perms None false 0 0 0 [] in
+  match t with
+  | LDir => ROk base
+  | LFile =>
+    match ob with
+    | None => RErr
+    | Some o =>
+      ROk (MkEntry t (p_name p) (p_target p) (st_size st) mtime xa gid uid perms
+             (if negb (p_hassrc p) && (1 <? st_nlink st) then Some (st_id st) else None)
+             false 0 0 (o_dlen o) (o_data o))
+    end
+  | LSym =>
+    if is_nil (p_target p) then
+      match ob with
+      | None => RErr                               (* readlink: ENOENT *)
+      | Some o =>
+        match fs_readlink (o_link o) with
+        | LDone tg => ROk (MkEntry t (p_name p) tg 0 mtime xa gid uid perms None false 0 0 0 [])
+        | LFail => RErr
+        | LDiverge => RDiverge
+        end
+      end
+    else ROk base
+  | LDev =>
+    match p_dev p with
+    | Some (isc, ma, mi) =>
+      ROk (MkEntry t (p_name p) (p_target p) 0 mtime xa gid uid perms None isc ma mi 0 [])
+    | None =>
+      match ob with
+      | None => RErr
+      | Some _ =>
+        let ft := N.land (st_mode st) S_IFMT in
+        if ft =? S_IFCHR then
+          ROk (MkEntry t (p_name p) (p_target p) 0 mtime xa gid uid perms None true
+                 (dev_major (st_rdev st)) (dev_minor (st_rdev st)) 0 [])
+        else if ft =? S_IFBLK then
+          ROk (MkEntry t (p_name p) (p_target p) 0 mtime xa gid uid perms None false
+                 (dev_major (st_rdev st)) (dev_minor (st_rdev st)) 0 [])
+        else RErr
+      end
+    end
+  | _ => RErr                                      (* assertion error: unknown file type *)
+  end.
+
+(* the values parseLine refuses before addSingleFile is reached *)
+Definition line_ok (p : opts) : bool :=
+  negb (has (p_mod p) && negb (has (opt_masks p)))
+  && uid_ok (p_uid p) && uid_ok (p_gid p) && dev_ok (p_dev p).
+
 (* addSingleFile; [now] is time.Now().Unix() (used for absent sources only) *)
 Definition add_single (p : opts) (s : srcstate) (now : Z) : res entry :=
-  let name_is_source := negb (p_hassrc p) in
-  let need_check :=
-    match p_ltype p with
-    | LDir => false
-    | LSym => is_nil (p_target p)
-    | LDev => p_hassrc p || negb (has (p_dev p))
-    | _ => name_is_source
-    end in
-  let masks := match p_mod p with Some m => parse_mod m | None => None end in
-  if has (p_mod p) && negb (has masks) then RErr else            (* bad mode setting *)
-  if negb (uid_ok (p_uid p) && uid_ok (p_gid p) && dev_ok (p_dev p)) then RErr else
+  if negb (line_ok p) then RErr else
   match s with
   | SLstatErr => RErr
-  | _ =>
-    let ob := match s with SPresent o => Some o | _ => None end in
-    let exists_ := has ob in
-    let st := match ob with Some o => o_st o | None => MkStat 0 0 0 0%Z 0 0 0 0 end in
-    match (match ob with Some o => classify (st_mode (o_st o)) | None => Some (LNone, false) end) with
+  | SAbsent =>
+    if p_skip p then RSkip else
+    match type_decision p false LNone false with
+    | None => RErr
+    | Some t =>
+      finish p t None now None (gid_of p false zero_stat) (uid_of p false zero_stat) (perms_of p false 0 t)
+    end
+  | SPresent o =>
+    match classify (st_mode (o_st o)) with
     | None => RErr                                         (* unknown type bits *)
     | Some (actual, pending) =>
-      if negb exists_ && p_skip p then RSkip else
-      (* type decision *)
-      let tdec : option ltype :=
-        match p_ltype p with
-        | LNone => if negb exists_ then None else if pending then None else Some actual
-        | t => if need_check
-               then (if pending then None
-                     else if exists_ && negb (ltype_eqb t actual) then None else Some t)
-               else Some t
-        end in
-      match tdec with
+      match type_decision p true actual pending with
       | None => RErr
       | Some t =>
-        let perms0 := if exists_ then st_mode st else default_perms t in
-        let perms := match p_mod p, masks with
-                     | Some _, Some (am, om) => if 0 <? am then N.lor (N.land perms0 am) om else om
-                     | _, _ => perms0
-                     end in
-        let gid := match p_gid p with Some g => g | None => if exists_ then st_gid st else D_StageFileGID end in
-        let uid := match p_uid p with Some u => u | None => if exists_ then st_uid st else D_StageFileUID end in
-        let mtime := if exists_ then st_mtime st else now in
-        match (match ob with Some o => get_xattrs (o_xattrs o) | None => LDone None end) with
+        match get_xattrs (o_xattrs o) with
         | LDiverge => RDiverge
         | LFail => RErr
         | LDone xa =>
-          let base := MkEntry t (p_name p) (p_target p) 0 mtime xa gid uid perms None false 0 0 0 [] in
-          match t with
-          | LDir => ROk base
-          | LFile =>
-            match ob with
-            | None => RErr
-            | Some o =>
-              ROk (MkEntry t (p_name p) (p_target p) (st_size st) mtime xa gid uid perms
-                     (if name_is_source && (1 <? st_nlink st) then Some (st_id st) else None)
-                     false 0 0 (o_dlen o) (o_data o))
-            end
-          | LSym =>
-            if is_nil (p_target p) then
-              match ob with
-              | None => RErr                               (* readlink: ENOENT *)
-              | Some o =>
-                match fs_readlink (o_link o) with
-                | LDone tg => ROk (MkEntry t (p_name p) tg 0 mtime xa gid uid perms None false 0 0 0 [])
-                | LFail => RErr
-                | LDiverge => RDiverge
-                end
-              end
-            else ROk base
-          | LDev =>
-            match p_dev p with
-            | Some (isc, ma, mi) =>
-              ROk (MkEntry t (p_name p) (p_target p) 0 mtime xa gid uid perms None isc ma mi 0 [])
-            | None =>
-              if negb exists_ then RErr
-              else let ft := N.land (st_mode st) S_IFMT in
-                   if ft =? S_IFCHR then
-                     ROk (MkEntry t (p_name p) (p_target p) 0 mtime xa gid uid perms None true
-                            (dev_major (st_rdev st)) (dev_minor (st_rdev st)) 0 [])
-                   else if ft =? S_IFBLK then
-                     ROk (MkEntry t (p_name p) (p_target p) 0 mtime xa gid uid perms None false
-                            (dev_major (st_rdev st)) (dev_minor (st_rdev st)) 0 [])
-                   else RErr
-            end
-          | _ => RErr                                      (* assertion error: unknown file type *)
-          end
+          finish p t (Some o) (st_mtime (o_st o)) xa (gid_of p true (o_st o)) (uid_of p true (o_st o))
+                 (perms_of p true (st_mode (o_st o)) t)
         end
       end
     end
@@ -397,25 +429,26 @@ Definition mk_header (e : entry) : tarres :=
   end.
 
 (* fixHardlinks over the name-sorted list: later members of an inode group become links
-   to the first one *)
+   to the first one (skipped entries are not in the list) *)
 Fixpoint group_first (g : N) (seen : list (N * bytes)) : option bytes :=
   match seen with
   | [] => None
   | (g', n) :: r => if g' =? g then Some n else group_first g r
   end.
-Fixpoint fix_hardlinks (seen : list (N * bytes)) (es : list entry) : list entry :=
+Definition as_hardlink (e : entry) (tg : bytes) : entry :=
+  MkEntry LHard (e_name e) tg (e_fsize e) (e_mtime e) (e_xattrs e) (e_gid e) (e_uid e) (e_perms e)
+          (e_devino e) (e_ischar e) (e_major e) (e_minor e) (e_dlen e) (e_data e).
+Fixpoint fix_hardlinks (seen : list (N * bytes)) (es : list (option entry)) : list (option entry) :=
   match es with
   | [] => []
-  | e :: r =>
+  | None :: r => None :: fix_hardlinks seen r
+  | Some e :: r =>
     match e_devino e with
-    | None => e :: fix_hardlinks seen r
+    | None => Some e :: fix_hardlinks seen r
     | Some g =>
       match group_first g seen with
-      | Some tg =>
-        MkEntry LHard (e_name e) tg (e_fsize e) (e_mtime e) (e_xattrs e) (e_gid e) (e_uid e) (e_perms e)
-                (e_devino e) (e_ischar e) (e_major e) (e_minor e) (e_dlen e) (e_data e)
-        :: fix_hardlinks seen r
-      | None => e :: fix_hardlinks (seen ++ [(g, e_name e)]) r
+      | Some tg => Some (as_hardlink e tg) :: fix_hardlinks seen r
+      | None => Some e :: fix_hardlinks (seen ++ [(g, e_name e)]) r
       end
     end
   end.
@@ -443,18 +476,6 @@ Fixpoint add_all (ms : list member) : res (list (option entry)) :=
     end
   end.
 
-Fixpoint somes {A} (l : list (option A)) : list A :=
-  match l with [] => [] | Some a :: r => a :: somes r | None :: r => somes r end.
-
-(* put the processed present entries back into the member positions *)
-Fixpoint refill {A B} (l : list (option A)) (es : list B) : list (option B) :=
-  match l, es with
-  | [], _ => []
-  | None :: r, _ => None :: refill r es
-  | Some _ :: r, e :: es' => Some e :: refill r es'
-  | Some _ :: r, [] => None :: refill r []
-  end.
-
 Fixpoint headers (es : list (option entry)) : option (list (option header)) :=
   match es with
   | [] => Some []
@@ -471,7 +492,7 @@ Definition run (ms : list member) : runres :=
   | RDiverge => RDiverged
   | RErr | RSkip => RFailed
   | ROk es =>
-    match headers (refill es (fix_hardlinks [] (somes es))) with
+    match headers (fix_hardlinks [] es) with
     | Some hs => ROutput hs
     | None => RTruncated
     end
